@@ -55,12 +55,20 @@ def split(rng, k, den):
 SENSITIVE = [(1, 4, 2), (2, 3, 2), (4, 1, 2), (3, 2, 2)]
 
 
-def gen_policy(rng, m, nondyadic):
+FORMS = ["tab"] * 6 + ["tab_lists"] * 3 + ["fun"] * 5 + ["fun_dict"] * 3 + ["dict"] * 3
+LABEL_KINDS = [None, "revstr", "tuple", "falsystr", "float", "unsortable"]
+
+
+def gen_policy(rng, m, nondyadic, tiny=None):
     rows = {}
     for s in range(m["n"]):
         av = m["actions"][s]
         r = rng.random()
-        if r < .3 or len(av) == 1:
+        if tiny and len(av) >= 2 and rng.random() < .5:
+            # probabilities 2^-k and 1 - 2^-k (exact doubles): `> 0` tests, nearly deterministic rows
+            a, b = rng.sample(av, 2)
+            row = [[a, str(F(1, 2 ** tiny))], [b, str(1 - F(1, 2 ** tiny))]]
+        elif r < .3 or len(av) == 1:
             row = [[rng.choice(av), "1"]]
         else:
             k = rng.randint(2, len(av)) if rng.random() < .7 else len(av)
@@ -86,7 +94,7 @@ def gen_policy(rng, m, nondyadic):
         rng.shuffle(so)
     if rng.random() < .6:
         rng.shuffle(ao)
-    return {"form": "tab" if rng.random() < .55 else "fun", "rows": rows,
+    return {"form": rng.choice(FORMS), "rows": rows, "avail": {str(s): list(m["actions"][s]) for s in range(m["n"])},
             "state_order": so, "action_order": ao, "nondyadic": bool(nondyadic)}
 
 
@@ -151,13 +159,15 @@ def gen_near_one_case(rng):
     m["init"] = [[C[0], "1/2"], [rng.choice([x for x in range(m["n"]) if x != C[0]] or [C[0]]), "1/2"]]
     if m["init"][0][0] == m["init"][1][0]:
         m["init"] = [[C[0], "1"]]
-    return with_reuse(rng, {"mdp": m, "policy": gen_policy(rng, m, rng.random() < .25), "explicit_lists": rng.random() < .3,
-                            "family": "gamma-near-one"})
+    return finish_case(rng, {"mdp": m, "policy": gen_policy(rng, m, rng.random() < .25), "explicit_lists": rng.random() < .3,
+                             "family": "gamma-near-one"})
 
 
 def gen_case(rng, tier):
     if rng.random() < .05:
         return gen_watch_case(rng)
+    if rng.random() < .03:
+        return gen_error_case(rng)
     if rng.random() < float(os.environ.get("C02_NEAR_ONE_SHARE", ".06")):     # env override: stress runs only
         return gen_near_one_case(rng)
     undisc = rng.random() < .45
@@ -179,6 +189,13 @@ def gen_case(rng, tier):
                     for ns in succ:
                         if rng.random() < .6:
                             m["reward"]["%d,%d,%d" % (s, a, ns)] = str(F(rng.randint(-4, -1)))
+            if rng.random() < .3:
+                # the class pays only a tiny negative reward: -2^-30 must still give -inf (`state_rewards < 0`)
+                s, a = C[0], m["actions"][C[0]][0]
+                for k in [k for k in m["reward"] if int(k.split(",")[0]) in C]:
+                    del m["reward"][k]
+                for ns, p in m["trans"]["%d,%d" % (s, a)]:
+                    m["reward"]["%d,%d,%d" % (s, a, ns)] = str(-F(1, 2 ** 30))
         # zero-reward regions (zero-reward closed classes, finite values next to -inf ones)
         if rng.random() < .35:
             zs = [s for s in range(m["n"]) if rng.random() < .5]
@@ -188,7 +205,67 @@ def gen_case(rng, tier):
     else:
         m = gen_mdp.gen_mdp(rng, nmax=nmax, amax=3, min_states=1 if rng.random() < .05 else 2)
     nondy = rng.random() < (.25 if undisc else .25)
-    return with_reuse(rng, {"mdp": m, "policy": gen_policy(rng, m, nondy), "explicit_lists": rng.random() < .3})
+    # ---- parameter boundaries ----
+    if not undisc and rng.random() < .1:
+        m["gamma"] = "0"                                  # discount rate exactly 0
+    if rng.random() < .08:                                # very large reward magnitudes (1e3 .. 1e6)
+        k = 10 ** rng.randint(3, 6)
+        m["reward"] = {key: str(F(v) * k) for key, v in m["reward"].items()}
+    if m["n"] >= 2 and rng.random() < .08:                # initial probabilities 2^-30 and 1 - 2^-30
+        a, b = rng.sample(range(m["n"]), 2)
+        m["init"] = [[a, str(F(1, 2 ** 30))], [b, str(1 - F(1, 2 ** 30))]]
+    tiny = (20 if undisc else 30) if rng.random() < .08 else None
+    case = {"mdp": m, "policy": gen_policy(rng, m, nondy, tiny), "explicit_lists": rng.random() < .3}
+    if m["gamma"] in ("0", "1") and rng.random() < .5:
+        case["gamma_as_int"] = True                       # discount_rate=1 / 0 passed as int
+    return finish_case(rng, case)
+
+
+def finish_case(rng, case):
+    m = case["mdp"]
+    if rng.random() < .4:                                 # label representations (incl. falsy labels "", (), 0.0)
+        case["labels"] = {"s": rng.choice(LABEL_KINDS), "a": rng.choice(LABEL_KINDS)}
+    if case["policy"]["form"] == "dict":
+        case["explicit_lists"] = False                    # from_dict only knows the actions it was given
+    case = with_reuse(rng, case)
+    if rng.random() < .18:
+        # a SECOND policy object evaluated on the MDP object that was already used by the first
+        p2 = gen_policy(rng, m, rng.random() < .25)
+        if p2["form"] == "dict" and case["explicit_lists"]:
+            p2["form"] = "tab"
+        steps = case.setdefault("reuse", [])
+        steps.insert(rng.randint(0, len(steps)), {"other_policy": p2})
+    return case
+
+
+def gen_error_case(rng):
+    """error paths of evaluate_on: the exception TYPE is the expected behaviour"""
+    kind = rng.choice(["policy-action-not-in-mdp", "discount-above-one", "positive-reward-undiscounted"])
+    g = {"policy-action-not-in-mdp": rng.choice(["9/10", "1"]), "discount-above-one": rng.choice(["11/10", "2"]),
+         "positive-reward-undiscounted": "1"}[kind]
+    m = gen_mdp.gen_mdp(rng, nmax=4, amax=3, gamma="9/10" if kind == "discount-above-one" else g, min_states=2)
+    m["gamma"] = g
+    pol = gen_policy(rng, m, False)
+    pol["form"] = rng.choice(["tab", "tab_lists"])
+    case = {"mdp": m, "policy": pol, "explicit_lists": rng.random() < .3, "family": "error-path", "error_kind": kind}
+    if kind == "policy-action-not-in-mdp":
+        pol["extra_action_labels"] = ["not-an-mdp-action"]
+        case["expect_error"] = "AssertionError"
+    elif kind == "discount-above-one":
+        case["expect_error"] = "ValueError"
+    else:
+        live = [(s, a) for s in range(m["n"]) if not m["absorbing"][s] for a in m["actions"][s]]
+        if not live:
+            m["absorbing"][0] = False
+            live = [(0, a) for a in m["actions"][0]]
+        # a positive expected reward somewhere: on every listed successor of one live (s, a), and make sure that
+        # state is reachable by starting there
+        s0, a0 = rng.choice(live)
+        for ns, p in m["trans"]["%d,%d" % (s0, a0)]:
+            m["reward"]["%d,%d,%d" % (s0, a0, ns)] = str(rng.randint(1, 4))
+        m["init"] = [[s0, "1"]]
+        case["expect_error"] = "AssertionError"
+    return case
 
 
 def with_reuse(rng, case):
@@ -210,28 +287,37 @@ def with_reuse(rng, case):
 # ---------------------------------------------------------------------------------------------
 def policy_views(case, res):
     """(Gallina term of the policy matrix, exact matrix pi[s][a] in msdm's index order,
-        expected to_tabular table or None)"""
+        expected policy table or None, expected own state list, expected own action list;
+        None for a list = any order of the MDP's set is allowed (TabularPolicy.from_dict))"""
     sl, al = res["state_list"], res["action_list"]
-    pol = case["policy"]
+    pol = res.get("pol") or case["policy"]
     sidx = {s: i for i, s in enumerate(sl)}
     aidx = {a: i for i, a in enumerate(al)}
     nS = len(sl)
     rows = {int(s): [(a, F(p)) for a, p in r] for s, r in pol["rows"].items()}
     pal_ids = [a for a in pol["action_order"] if a in aidx]
-    pal = [aidx[a] for a in pal_ids]
     exact = [[sum((p for a, p in rows[s] if a == al[j]), F(0)) for j in range(len(al))] for s in sl]
-    if pol["form"] == "tab":
+    form = pol["form"]
+    free = form == "dict"
+    if free:
+        # from_dict: states in dict order, actions in set order -> take the lists msdm reports, require the sets
+        psl_ids, pal_ids = list(res["psl"]), list(res["pal"])
+        if sorted(psl_ids) != sorted(sl) or sorted(pal_ids) != sorted(al):
+            psl_ids, pal_ids = None, None
+            return None, exact, None, None, None
+    elif form in ("tab", "tab_lists"):
         psl_ids = list(pol["state_order"])
-        psl = [sidx[s] if s in sidx else nS + s for s in psl_ids]
-        data = [[sum((p for a, p in rows[s] if a == b), F(0)) for b in pal_ids] for s in psl_ids]
-        term = "(ptab %s %s %s)" % (natlist(psl), natlist(pal), qmat(data))
-        table = None
     else:
         psl_ids = [s for s in pol["state_order"] if s in sidx]
-        psl = [sidx[s] for s in psl_ids]
+    pal = [aidx[a] for a in pal_ids]
+    psl = [sidx[s] if s in sidx else nS + s for s in psl_ids]
+    data = [[sum((p for a, p in rows[s] if a == b), F(0)) for b in pal_ids] for s in psl_ids]
+    if form in ("tab", "tab_lists", "dict"):
+        term = "(ptab %s %s %s)" % (natlist(psl), natlist(pal), qmat(data))
+    else:
         dl = [coqlist("(%s, %s)" % (nat(aidx[a]), q(p)) for a, p in rows[s]) for s in sl]
         term = "(pfun %s %s %s)" % (natlist(psl), natlist(pal), coqlist(dl))
-        table = [[float(sum((p for a, p in rows[s] if a == b), F(0))) for b in pal_ids] for s in psl_ids]
+    table = None if form in ("tab", "tab_lists") else [[float(x) for x in r] for r in data]
     return term, exact, table, psl_ids, pal_ids
 
 
@@ -403,7 +489,11 @@ def run(ctx):
         cases = [gen_case(ctx.rng, tier) for _ in range(ncases)]
     impl = ctx.impl("c02_impl.py", {"cases": cases}, shards=min(ctx.jobs, 4 if tier == "quick" else 12))["results"]
     terms, meta = [], []
-    cnt = {k: 0 for k in ("discounted", "undiscounted", "form_tab", "form_fun", "nondyadic", "neginf_cases", "mixed_finite_and_neginf",
+    cnt = {k: 0 for k in ("discounted", "undiscounted", "form_tab", "form_tab_lists", "form_fun", "form_fun_dict", "form_dict",
+                          "error_path_cases", "relabelled_cases", "falsy_label_cases", "unsortable_label_cases", "gamma_zero_cases",
+                          "gamma_as_int_cases", "large_reward_cases", "tiny_probability_cases", "tiny_negative_reward_cases",
+                          "nan_to_zero_in_q_cases", "nan_to_zero_in_initial_value_cases", "all_absorbing_cases", "single_state_cases",
+                          "second_policy_on_used_mdp", "nondyadic", "neginf_cases", "mixed_finite_and_neginf",
                           "occinf_cases", "q_absorbing_nonzero_cases", "policy_on_larger_state_list", "permuted_lists",
                           "stochastic_policy_rows", "oracle_agree", "explicit_lists", "zero_prob_entries", "tau_certificates_accepted",
                           "gamma_near_one_cases", "rounding_watch_cases", "multi_step_cases", "reused_policy_evaluations",
@@ -416,6 +506,12 @@ def run(ctx):
         if "error" in res:
             ctx.violation(pre + "impl-error:" + res["error"].split(":")[0], {"case": case, "error": res["error"], "trace": res.get("trace")}, found=True)
             continue
+        if case.get("expect_error"):
+            cnt["error_path_cases"] += 1
+            if res.get("raised") != case["expect_error"]:
+                ctx.violation("C02:error-path:%s:expected-%s-got-%s" % (case["error_kind"], case["expect_error"], res.get("raised")),
+                              {"case": case, "raised": res.get("raised")}, found=True)
+            continue
         evs = res.get("evals") or [res]
         for k, ev in enumerate(evs):
             # every evaluation of the (same) policy object is judged on its own: the MDP arrays and the
@@ -423,26 +519,31 @@ def run(ctx):
             r = dict(res)
             r.pop("evals", None)
             r.update(ev)
-            prek = pre + ("reused-policy-object:" if k > 0 else "")
+            prek = pre + (("second-policy-on-used-mdp:" if "pol" in ev else "reused-policy-object:") if k > 0 else "")
             if "error" in ev:
                 ctx.violation(prek + "impl-error:" + ev["error"].split(":")[0], {"case": case, "step": k, "error": ev["error"]}, found=True)
                 continue
             sl, al = r["state_list"], r["action_list"]
             P, R, av, absf, ini = gen_mdp.arrays(case["mdp"], sl, al)
             pterm, pi, table, psl_ids, pal_ids = policy_views(case, r)
-            # harness <-> impl agreement on the plumbing (cheap, exact)
-            if psl_ids != res["psl"] or pal_ids != res["pal"]:
-                ctx.violation("C02:harness-lists-mismatch", {"case": case, "impl": res}, found=False)
+            if pterm is None:
+                ctx.violation(prek + "policy-table-lists-differ-from-mdp", {"case": case, "step": k, "psl": r["psl"], "pal": r["pal"]}, found=True)
                 break
+            # harness <-> impl agreement on the plumbing (cheap, exact)
+            if psl_ids != r["psl"] or pal_ids != r["pal"]:
+                ctx.violation("C02:harness-lists-mismatch", {"case": case, "step": k, "impl": r}, found=False)
+                break
+            form = (r.get("pol") or case["policy"])["form"]
+            if (k == 0 or "pol" in ev) and table is not None and (
+                    r.get("policy_type") != "TabularPolicy" or [[float(vlib.frac(x)) for x in rr] for rr in r["table"]] != table):
+                ctx.violation(pre + ("from_dict" if form == "dict" else "to_tabular") + "-table-differs",
+                              {"case": case, "step": k, "impl_table": r["table"], "expected": table}, found=True)
+                break
+            cnt["form_" + form] += int(k == 0 or "pol" in ev)
             if k == 0:
-                if table is not None and (res.get("policy_type") != "TabularPolicy" or
-                                          [[float(vlib.frac(x)) for x in rr] for rr in res["table"]] != table):
-                    ctx.violation(pre + "to_tabular-table-differs", {"case": case, "impl_table": res["table"], "expected": table}, found=True)
-                    break
                 cnt["undiscounted" if und else "discounted"] += 1
                 cnt["gamma_near_one_cases"] += int(case.get("family") == "gamma-near-one")
                 cnt["rounding_watch_cases"] += int(case.get("family") == "rounding-watch")
-                cnt["form_" + case["policy"]["form"]] += 1
                 cnt["nondyadic"] += int(case["policy"]["nondyadic"])
                 cnt["explicit_lists"] += int(case["explicit_lists"])
                 cnt["policy_on_larger_state_list"] += int(len(psl_ids) > len(sl))
@@ -456,9 +557,29 @@ def run(ctx):
                 if any(ab[s] and not isinstance(x, str) and vlib.frac(x) != 0 for s in range(len(sl)) for x in r["Q"][s]):
                     cnt["q_absorbing_nonzero_cases"] += 1     # non-gating observation (coordinator's decision)
                 cnt["multi_step_cases"] += int(len(evs) > 1)
+                lab = case.get("labels") or {}
+                cnt["relabelled_cases"] += int(bool(lab.get("s") or lab.get("a")))
+                cnt["falsy_label_cases"] += int(lab.get("s") in ("tuple", "falsystr", "float") or lab.get("a") in ("tuple", "falsystr", "float"))
+                cnt["unsortable_label_cases"] += int("unsortable" in (lab.get("s"), lab.get("a")))
+                cnt["gamma_zero_cases"] += int(g == 0)
+                cnt["gamma_as_int_cases"] += int(bool(case.get("gamma_as_int")))
+                cnt["large_reward_cases"] += int(any(abs(F(x)) >= 1000 for x in case["mdp"]["reward"].values()))
+                cnt["tiny_probability_cases"] += int(any(0 < F(p) < F(1, 10**5) for rr in case["policy"]["rows"].values() for a, p in rr)
+                                                     or any(0 < F(p) < F(1, 10**5) for x, p in case["mdp"]["init"]))
+                cnt["tiny_negative_reward_cases"] += int(any(-F(1, 10**6) < F(x) < 0 for x in case["mdp"]["reward"].values()))
+                # rarely taken paths of the undiscounted branch: 0 * -inf -> nan -> 0 in Q and in the initial value
+                if und and "-inf" in r["V"]:
+                    cnt["nan_to_zero_in_q_cases"] += int(any(av[s_][a_] and any(P[s_][a_][z] == 0 and r["V"][z] == "-inf" for z in range(len(sl)))
+                                                             for s_ in range(len(sl)) for a_ in range(len(al))))
+                    cnt["nan_to_zero_in_initial_value_cases"] += int(any(ini[z] == 0 and r["V"][z] == "-inf" for z in range(len(sl))))
+                cnt["all_absorbing_cases"] += int(all(ab))
+                cnt["single_state_cases"] += int(len(sl) == 1)
             else:
-                cnt["reused_policy_evaluations"] += 1
-                cnt["reused_on_reordered_lists"] += int(sl != evs[0]["state_list"] or al != evs[0]["action_list"])
+                if "pol" in ev:
+                    cnt["second_policy_on_used_mdp"] += 1
+                else:
+                    cnt["reused_policy_evaluations"] += 1
+                    cnt["reused_on_reordered_lists"] += int(sl != evs[0]["state_list"] or al != evs[0]["action_list"])
             mt = " ".join([nat(len(sl)), nat(len(al)), qten(P), qten(R), bmat(av), blist(absf), qlist(ini), q(g)])
             out = " ".join([coqlist(ext(x) for x in r["V"]), coqlist(coqlist(ext(x) for x in rr) for rr in r["Q"]),
                             coqlist(ext(x) for x in r["occ"]), ext(r["initial_value"])])
